@@ -12,6 +12,7 @@ import Rngs.Model.Isaac
 import Rngs.Lib.XorLinear
 import Rngs.Lib.ExtTieBlock
 import Rngs.Lib.ExtTieShapes
+import Rngs.Lib.ExtTieRc
 namespace Rngs
 
 /-- step functions (`next_u32`, `next_u64`): definitional unfolding first -/
